@@ -230,7 +230,7 @@ def _case(draw, disabled: frozenset):
         else:
             n = draw(st.integers(1, 3))
             cellk = [k for k in kinds if k in ("code", "link", "html")]
-            cells = [[draw(st.sampled_from(WORDS + [s for k in cellk for s in SPANS[k] if "|" not in s])) for _ in range(n)] for _ in range(draw(st.integers(1, 3)))]
+            cells = [[draw(st.sampled_from(WORDS + [s for k in cellk for s in SPANS[k] if "|" not in s] + ["`a \\| b`", "x \\| y", "`c\\|d` e"])) for _ in range(n)] for _ in range(draw(st.integers(1, 3)))]
             blocks.append({"type": "table", "cells": cells})
     if any(b["type"] == "indcode" for b in blocks) and blocks[0]["type"] == "indcode":
         # a document whose every line is indented is dedented by design (docstring use): keep one unindented block first
